@@ -1,3 +1,6 @@
+Base/Bits.vo Base/Bits.glob Base/Bits.v.beautified Base/Bits.required_vo: Base/Bits.v 
+Base/Bits.vio: Base/Bits.v 
+Base/Bits.vos Base/Bits.vok Base/Bits.required_vos: Base/Bits.v 
 Base/Bytes.vo Base/Bytes.glob Base/Bytes.v.beautified Base/Bytes.required_vo: Base/Bytes.v 
 Base/Bytes.vio: Base/Bytes.v 
 Base/Bytes.vos Base/Bytes.vok Base/Bytes.required_vos: Base/Bytes.v 
@@ -10,9 +13,33 @@ Crc/CrcProofs.vos Crc/CrcProofs.vok Crc/CrcProofs.required_vos: Crc/CrcProofs.v 
 Crc/CrcSpec.vo Crc/CrcSpec.glob Crc/CrcSpec.v.beautified Crc/CrcSpec.required_vo: Crc/CrcSpec.v Base/Bytes.vo
 Crc/CrcSpec.vio: Crc/CrcSpec.v Base/Bytes.vio
 Crc/CrcSpec.vos Crc/CrcSpec.vok Crc/CrcSpec.required_vos: Crc/CrcSpec.v Base/Bytes.vos
-Extract.vo Extract.glob Extract.v.beautified Extract.required_vo: Extract.v Base/Bytes.vo Crc/CrcSpec.vo Crc/CrcModel.vo
-Extract.vio: Extract.v Base/Bytes.vio Crc/CrcSpec.vio Crc/CrcModel.vio
-Extract.vos Extract.vok Extract.required_vos: Extract.v Base/Bytes.vos Crc/CrcSpec.vos Crc/CrcModel.vos
+Extract.vo Extract.glob Extract.v.beautified Extract.required_vo: Extract.v Base/Bytes.vo Crc/CrcSpec.vo Crc/CrcModel.vo Link/LLHeader.vo Link/LinkSpec.vo Link/Frame.vo Link/Frag.vo Link/Resync.vo Link/Rx.vo Link/RxSpec.vo
+Extract.vio: Extract.v Base/Bytes.vio Crc/CrcSpec.vio Crc/CrcModel.vio Link/LLHeader.vio Link/LinkSpec.vio Link/Frame.vio Link/Frag.vio Link/Resync.vio Link/Rx.vio Link/RxSpec.vio
+Extract.vos Extract.vok Extract.required_vos: Extract.v Base/Bytes.vos Crc/CrcSpec.vos Crc/CrcModel.vos Link/LLHeader.vos Link/LinkSpec.vos Link/Frame.vos Link/Frag.vos Link/Resync.vos Link/Rx.vos Link/RxSpec.vos
+Link/Frag.vo Link/Frag.glob Link/Frag.v.beautified Link/Frag.required_vo: Link/Frag.v Base/Bytes.vo Base/Bits.vo Crc/CrcModel.vo Link/LLHeader.vo Link/Frame.vo gen/GenConsts.vo
+Link/Frag.vio: Link/Frag.v Base/Bytes.vio Base/Bits.vio Crc/CrcModel.vio Link/LLHeader.vio Link/Frame.vio gen/GenConsts.vio
+Link/Frag.vos Link/Frag.vok Link/Frag.required_vos: Link/Frag.v Base/Bytes.vos Base/Bits.vos Crc/CrcModel.vos Link/LLHeader.vos Link/Frame.vos gen/GenConsts.vos
+Link/Frame.vo Link/Frame.glob Link/Frame.v.beautified Link/Frame.required_vo: Link/Frame.v Base/Bytes.vo Base/Bits.vo Crc/CrcModel.vo Link/LLHeader.vo gen/GenConsts.vo
+Link/Frame.vio: Link/Frame.v Base/Bytes.vio Base/Bits.vio Crc/CrcModel.vio Link/LLHeader.vio gen/GenConsts.vio
+Link/Frame.vos Link/Frame.vok Link/Frame.required_vos: Link/Frame.v Base/Bytes.vos Base/Bits.vos Crc/CrcModel.vos Link/LLHeader.vos gen/GenConsts.vos
+Link/LLHeader.vo Link/LLHeader.glob Link/LLHeader.v.beautified Link/LLHeader.required_vo: Link/LLHeader.v Base/Bits.vo Base/Bytes.vo
+Link/LLHeader.vio: Link/LLHeader.v Base/Bits.vio Base/Bytes.vio
+Link/LLHeader.vos Link/LLHeader.vok Link/LLHeader.required_vos: Link/LLHeader.v Base/Bits.vos Base/Bytes.vos
+Link/LLHeaderGen.vo Link/LLHeaderGen.glob Link/LLHeaderGen.v.beautified Link/LLHeaderGen.required_vo: Link/LLHeaderGen.v Base/Bits.vo Link/LLHeader.vo gen/GenBitfields.vo
+Link/LLHeaderGen.vio: Link/LLHeaderGen.v Base/Bits.vio Link/LLHeader.vio gen/GenBitfields.vio
+Link/LLHeaderGen.vos Link/LLHeaderGen.vok Link/LLHeaderGen.required_vos: Link/LLHeaderGen.v Base/Bits.vos Link/LLHeader.vos gen/GenBitfields.vos
+Link/LinkSpec.vo Link/LinkSpec.glob Link/LinkSpec.v.beautified Link/LinkSpec.required_vo: Link/LinkSpec.v Base/Bytes.vo Crc/CrcSpec.vo
+Link/LinkSpec.vio: Link/LinkSpec.v Base/Bytes.vio Crc/CrcSpec.vio
+Link/LinkSpec.vos Link/LinkSpec.vok Link/LinkSpec.required_vos: Link/LinkSpec.v Base/Bytes.vos Crc/CrcSpec.vos
+Link/Resync.vo Link/Resync.glob Link/Resync.v.beautified Link/Resync.required_vo: Link/Resync.v 
+Link/Resync.vio: Link/Resync.v 
+Link/Resync.vos Link/Resync.vok Link/Resync.required_vos: Link/Resync.v 
+Link/Rx.vo Link/Rx.glob Link/Rx.v.beautified Link/Rx.required_vo: Link/Rx.v Base/Bytes.vo Crc/CrcModel.vo Link/LinkSpec.vo Link/Frame.vo Link/Resync.vo gen/GenConsts.vo
+Link/Rx.vio: Link/Rx.v Base/Bytes.vio Crc/CrcModel.vio Link/LinkSpec.vio Link/Frame.vio Link/Resync.vio gen/GenConsts.vio
+Link/Rx.vos Link/Rx.vok Link/Rx.required_vos: Link/Rx.v Base/Bytes.vos Crc/CrcModel.vos Link/LinkSpec.vos Link/Frame.vos Link/Resync.vos gen/GenConsts.vos
+Link/RxSpec.vo Link/RxSpec.glob Link/RxSpec.v.beautified Link/RxSpec.required_vo: Link/RxSpec.v Base/Bytes.vo Crc/CrcSpec.vo Link/LinkSpec.vo
+Link/RxSpec.vio: Link/RxSpec.v Base/Bytes.vio Crc/CrcSpec.vio Link/LinkSpec.vio
+Link/RxSpec.vos Link/RxSpec.vok Link/RxSpec.required_vos: Link/RxSpec.v Base/Bytes.vos Crc/CrcSpec.vos Link/LinkSpec.vos
 gen/GenBitfields.vo gen/GenBitfields.glob gen/GenBitfields.v.beautified gen/GenBitfields.required_vo: gen/GenBitfields.v 
 gen/GenBitfields.vio: gen/GenBitfields.v 
 gen/GenBitfields.vos gen/GenBitfields.vok gen/GenBitfields.required_vos: gen/GenBitfields.v 
@@ -22,6 +49,21 @@ gen/GenConsts.vos gen/GenConsts.vok gen/GenConsts.required_vos: gen/GenConsts.v
 gen/GenCrcTables.vo gen/GenCrcTables.glob gen/GenCrcTables.v.beautified gen/GenCrcTables.required_vo: gen/GenCrcTables.v 
 gen/GenCrcTables.vio: gen/GenCrcTables.v 
 gen/GenCrcTables.vos gen/GenCrcTables.vok gen/GenCrcTables.required_vos: gen/GenCrcTables.v 
+props/Props_C01.vo props/Props_C01.glob props/Props_C01.v.beautified props/Props_C01.required_vo: props/Props_C01.v Link/Rx.vo Link/RxSpec.vo
+props/Props_C01.vio: props/Props_C01.v Link/Rx.vio Link/RxSpec.vio
+props/Props_C01.vos props/Props_C01.vok props/Props_C01.required_vos: props/Props_C01.v Link/Rx.vos Link/RxSpec.vos
+props/Props_C02.vo props/Props_C02.glob props/Props_C02.v.beautified props/Props_C02.required_vo: props/Props_C02.v Link/Rx.vo Link/RxSpec.vo
+props/Props_C02.vio: props/Props_C02.v Link/Rx.vio Link/RxSpec.vio
+props/Props_C02.vos props/Props_C02.vok props/Props_C02.required_vos: props/Props_C02.v Link/Rx.vos Link/RxSpec.vos
 props/Props_C03.vo props/Props_C03.glob props/Props_C03.v.beautified props/Props_C03.required_vo: props/Props_C03.v Base/Bytes.vo Crc/CrcSpec.vo Crc/CrcModel.vo Crc/CrcProofs.vo
 props/Props_C03.vio: props/Props_C03.v Base/Bytes.vio Crc/CrcSpec.vio Crc/CrcModel.vio Crc/CrcProofs.vio
 props/Props_C03.vos props/Props_C03.vok props/Props_C03.required_vos: props/Props_C03.v Base/Bytes.vos Crc/CrcSpec.vos Crc/CrcModel.vos Crc/CrcProofs.vos
+props/Props_C05.vo props/Props_C05.glob props/Props_C05.v.beautified props/Props_C05.required_vo: props/Props_C05.v Base/Bytes.vo Base/Bits.vo Link/LLHeader.vo Link/LLHeaderGen.vo
+props/Props_C05.vio: props/Props_C05.v Base/Bytes.vio Base/Bits.vio Link/LLHeader.vio Link/LLHeaderGen.vio
+props/Props_C05.vos props/Props_C05.vok props/Props_C05.required_vos: props/Props_C05.v Base/Bytes.vos Base/Bits.vos Link/LLHeader.vos Link/LLHeaderGen.vos
+props/Props_C06.vo props/Props_C06.glob props/Props_C06.v.beautified props/Props_C06.required_vo: props/Props_C06.v Link/Rx.vo Link/RxSpec.vo
+props/Props_C06.vio: props/Props_C06.v Link/Rx.vio Link/RxSpec.vio
+props/Props_C06.vos props/Props_C06.vok props/Props_C06.required_vos: props/Props_C06.v Link/Rx.vos Link/RxSpec.vos
+props/Props_C09.vo props/Props_C09.glob props/Props_C09.v.beautified props/Props_C09.required_vo: props/Props_C09.v Base/Bytes.vo Link/Frame.vo Link/Frag.vo
+props/Props_C09.vio: props/Props_C09.v Base/Bytes.vio Link/Frame.vio Link/Frag.vio
+props/Props_C09.vos props/Props_C09.vok props/Props_C09.required_vos: props/Props_C09.v Base/Bytes.vos Link/Frame.vos Link/Frag.vos
